@@ -103,6 +103,27 @@ def rule_sf1(ctx: Ctx) -> List[Ob]:
                       (f"line {late[0].line}: the cached value can be used / returned while self.x is not known to equal the argument: "
                        "a value cached for another point can be served" if late else "no update call found"),
                       construct=f"{a}: exact-comparison guard"))
+    # the other half of "keyed on the last evaluated x": the flags are reset (update_x) ONLY when the point really
+    # changed -- a reset at the cached point throws away a value that is still valid and re-evaluates the objective there
+    for name, f in ms.items():
+        if name == "update_x" or name == "__init__":
+            continue
+        cfg = ctx.cfg(f)
+        for n in cfg.nodes:
+            for c in node_calls(n):
+                if dotted(c.func) == "self.update_x" and len(c.args) == 1:
+                    arg = src(c.args[0])
+
+                    has_test = any(m.kind == "test" and isinstance(m.ast, ast.Call) and dotted(m.ast.func) == "np.array_equal" for m in cfg.nodes)
+                    # precise statement: every path to the call passes the FALSE edge of the equality test
+                    through_equal = cfg.reachable(cfg.entry, follow_exc=False, edge_ok=lambda a_, b_, lab: not (
+                        a_.kind == "test" and isinstance(a_.ast, ast.Call) and dotted(a_.ast.func) == "np.array_equal"
+                        and len(a_.ast.args) == 2 and {src(a_.ast.args[0]), src(a_.ast.args[1])} == {arg, "self.x"} and lab is False))
+                    okg = has_test and n not in through_equal
+                    obs.append(ob("SF1", "the cache is re-keyed (flags reset) only when the requested point differs from the cached one", f, c, okg,
+                                  "update_x is reached only through the 'not equal' outcome of the exact comparison" if okg else
+                                  "update_x can be reached although the requested point IS the cached one: a still valid value is discarded and the "
+                                  "objective re-evaluated at the point it was last evaluated at", construct=f"{name}: update_x({arg}) guard"))
     return obs
 
 
@@ -153,7 +174,17 @@ def rule_sf3(ctx: Ctx) -> List[Ob]:
                              ("_update_grad", "self.g_updated", "self._update_grad_impl")):
         f = ms[meth]
         cfg = ctx.cfg(f)
-        impls = [n for n in cfg.nodes if any(dotted(c.func) == impl for c in node_calls(n))]
+        # the evaluation hook by role: the attribute(s) that hold a closure of __init__ writing the cached value / gradient
+        init_ = ctx.repo.func(CLS + ".__init__")
+        wanted = "self.f" if meth == "_update_fun" else "self.g"
+        writers_ = {g_.name for q_, g_ in ctx.repo.funcs.items() if g_.parent is init_ and any(
+            isinstance(s_, ast.Assign) and any(src(t_) == wanted for t_ in s_.targets) for s_ in walk_no_nested(g_.node))}
+        hooks = {impl}
+        for s_ in walk_no_nested(init_.node):
+            if isinstance(s_, ast.Assign) and len(s_.targets) == 1 and isinstance(s_.targets[0], ast.Attribute) and src(s_.targets[0].value) == "self" \
+                    and isinstance(s_.value, ast.Name) and s_.value.id in writers_:
+                hooks.add(f"self.{s_.targets[0].attr}")
+        impls = [n for n in cfg.nodes if any(dotted(c.func) in hooks for c in node_calls(n))]
         sets = [n for n in cfg.nodes if any(k == flag for k, v, how in node_defs(n))]
         flag_tests = [n for n in cfg.nodes if n.kind == "test" and src(n.ast) == flag]
         okk, why = len(impls) == 1 and len(sets) == 1 and bool(flag_tests), ""
